@@ -283,9 +283,11 @@ class BoundingBox(Sequence[float]):
         :param transform: Affine mapping from pixel to world
         :param crs: CRS
         """
-        p1 = transform * (0, 0)
-        p2 = transform * shape_(shape).xy
-        return BoundingBox.from_points(p1, p2, crs=crs)
+        # all four corners: rotated / sheared transforms don't map opposite corners to extremes
+        nx, ny = shape_(shape).xy
+        pts = [transform * pt for pt in [(0, 0), (nx, 0), (nx, ny), (0, ny)]]
+        xs, ys = [x for x, _ in pts], [y for _, y in pts]
+        return BoundingBox(min(xs), min(ys), max(xs), max(ys), crs)
 
     @property
     def aoi(self) -> AreaOfInterest:
